@@ -8,6 +8,7 @@ import WpModel.Model.ReplacedDoc
 import WpModel.Model.RasterEmbed
 import WpModel.Model.ReplacedBg
 import WpModel.Model.ImageOrient
+import WpModel.Gen.ImageInherited
 
 namespace Wp.C13.Witness
 open Wp Wp.Replaced
@@ -73,5 +74,13 @@ theorem orientation_quarter_turn_is_clockwise :
     (cssOrient (Img.ofRows 0 [[10, 20]]) 90 false).rows = [[10], [20]] ∧
     (rotatePillow (Img.ofRows 0 [[10, 20]]) (.turn 270 false)).1.rows = [[20], [10]] := by
   refine ⟨?_, ?_, ?_⟩ <;> decide +kernel
+
+/-- css-images-3 §6 defines `image-orientation`, `image-rendering` and `image-resolution` as inherited
+properties.  The regenerated `INHERITED` table has the last two but not `image_orientation`: an `<img>` (or a
+`content` / `list-style-image` / background image) under an element with `image-orientation: 90deg` is not
+rotated and keeps the un-rotated intrinsic size (known finding `image-orientation-not-inherited`). -/
+theorem image_orientation_not_inherited :
+    Gen.imagePropsInherited = [("image_orientation", false), ("image_rendering", true), ("image_resolution", true)] := by
+  rfl
 
 end Wp.C13.Witness
